@@ -51,6 +51,10 @@ func main() {
 		b2 := pluginc07.RunHistoriesWith(e, "C10", "x", e.N(500, 10000), pluginc07.C10Histories(p2), mon, plugin.Execute, pluginc07.CoreDriver)
 		b2.Fill(r)
 		lap("histories (two-address pods, retries on other nodes)")
+		p3 := pluginc07.C10Params{Len: 50, PFaultPct: 10, FaultPct: 8, MultiPct: 0, RebindPct: 0}
+		b3 := pluginc07.RunHistoriesWith(e, "C10", "f", e.N(600, 12000), pluginc07.C10Histories(p3), mon, plugin.Execute, pluginc07.CoreDriver)
+		b3.Fill(r)
+		lap("histories (apiserver faults + provider faults, single address per pod)")
 		if e.Thorough() {
 			pluginc07.ExhaustiveC10(e, r, "C10", mon, 8, 8*60)
 			lap("small-scope exhaustive")
